@@ -1,4 +1,4 @@
-import RtenVerif.Model.BlockQuantIndex
+import RtenVerif.Props.C37
 
 /-!
 # C37 — index arithmetic of the block-quantized kernels
@@ -243,5 +243,132 @@ of tail blocks is not a power of two: AVX-512 width, `bs = 16`, 11 blocks (3 tai
 theorem c37_seed_b_refuted :
     scaleIdxFloatSeedB 128 16 11 160 = 9 ∧ scaleIdxFloat 128 16 11 160 = 10 ∧
     (∀ k : Fin 160, scaleIdxFloatSeedB 128 16 10 k.val = k.val / 16) := by decide +kernel
+
+/-! ### Composition: kernel sums through the index arithmetic = the reference -/
+
+section Compose
+open RtenVerif.BlockQuant Lean.Grind
+variable {R : Type} [CommRing R]
+
+theorem idxDot_congr (f g : Nat → R) : ∀ (k0 : Nat) (a q : List R),
+    (∀ k, k0 ≤ k → k < k0 + a.length → f k = g k) → idxDot f k0 a q = idxDot g k0 a q
+  | _, [], _, _ => by simp [idxDot]
+  | _, _ :: _, [], _ => by simp [idxDot]
+  | k0, x :: xs, y :: ys, h => by
+    have h0 := h k0 (Nat.le_refl _) (by simp)
+    have ih := idxDot_congr f g (k0 + 1) xs ys (fun k hk1 hk2 => h k (by omega) (by
+      simp only [List.length_cons]; omega))
+    simp only [idxDot, h0, ih]
+
+theorem idxDot_getD (w : List R) : ∀ (k0 : Nat) (a q : List R),
+    idxDot (fun k => w.getD k 0) k0 a q = dot3 a (w.drop k0) q
+  | _, [], _ => by simp [idxDot, dot3_nil_a]
+  | _, _ :: _, [] => by simp [idxDot, dot3_nil_q]
+  | k0, x :: xs, y :: ys => by
+    have ih := idxDot_getD w (k0 + 1) xs ys
+    simp only [List.getD_eq_getElem?_getD] at ih ⊢
+    by_cases hk : k0 < w.length
+    · rw [List.drop_eq_getElem_cons hk]
+      simp only [idxDot, dot3, ih, List.getD_eq_getElem?_getD, List.getElem?_eq_getElem hk,
+        Option.getD_some]
+    · have hd : w.drop k0 = [] := List.drop_eq_nil_of_le (by omega)
+      have hd1 : w.drop (k0 + 1) = [] := List.drop_eq_nil_of_le (by omega)
+      rw [hd1, dot3_nil_w] at ih
+      rw [hd, dot3_nil_w]
+      simp only [idxDot, ih, List.getD_eq_getElem?_getD, List.getElem?_eq_none (by omega : w.length ≤ k0),
+        Option.getD_none]
+      grind
+
+/-- **C37.I5** Float kernel = dequantize-then-multiply: summing, for every element, `a_k` times the
+weight dequantised with the scale *the kernel's own index arithmetic* selects equals the reference
+`refDot`, for every SIMD width of the code, every power-of-two block size `≥ 16`, every block
+count, and LHS/weights of equal length `≤ nb·bs`. -/
+theorem c37_float_kernel_eq_reference (epv j nb : Nat) (hepv : IsEpv epv) (scales a q : List R)
+    (hlen : a.length ≤ nb * (16 * 2 ^ j)) :
+    floatKernelDot epv (16 * 2 ^ j) nb scales a q = refDot (16 * 2 ^ j) scales a q := by
+  have hbs : 0 < 16 * 2 ^ j := Nat.mul_pos (by decide) (Nat.pow_pos (by decide))
+  unfold floatKernelDot refDot
+  have h := idxDot_getD (expandScales (16 * 2 ^ j) scales) 0 a q
+  rw [List.drop_zero] at h
+  rw [← h]
+  apply idxDot_congr
+  intro k _ hk
+  rw [c37_scale_index_float epv j nb k hepv (by omega), expandScales_getD _ hbs]
+
+theorem idxDot2_congr (f g f' g' : Nat → R) : ∀ (k0 : Nat) (l q : List R),
+    (∀ k, k0 ≤ k → k < k0 + l.length → f k = f' k ∧ g k = g' k) →
+      idxDot2 f g k0 l q = idxDot2 f' g' k0 l q
+  | _, [], _, _ => by simp [idxDot2]
+  | _, _ :: _, [], _ => by simp [idxDot2]
+  | k0, x :: xs, y :: ys, h => by
+    have h0 := h k0 (Nat.le_refl _) (by simp)
+    have ih := idxDot2_congr f g f' g' (k0 + 1) xs ys (fun k hk1 hk2 => h k (by omega) (by
+      simp only [List.length_cons]; omega))
+    simp only [idxDot2, h0.1, h0.2, ih]
+
+theorem idxDot2_getD (cw rw' : List R) : ∀ (k0 : Nat) (l q : List R),
+    idxDot2 (fun k => cw.getD k 0) (fun k => rw'.getD k 0) k0 l q =
+      dot3 (List.zipWith (· * ·) (rw'.drop k0) l) (cw.drop k0) q
+  | _, [], _ => by simp [idxDot2, dot3_nil_a]
+  | _, _ :: _, [] => by simp [idxDot2, dot3_nil_q]
+  | k0, x :: xs, y :: ys => by
+    have ih := idxDot2_getD cw rw' (k0 + 1) xs ys
+    simp only [List.getD_eq_getElem?_getD] at ih ⊢
+    by_cases hr : k0 < rw'.length
+    · rw [List.drop_eq_getElem_cons hr]
+      by_cases hc : k0 < cw.length
+      · rw [List.drop_eq_getElem_cons hc]
+        simp only [idxDot2, List.zipWith_cons_cons, dot3, ih, List.getD_eq_getElem?_getD,
+          List.getElem?_eq_getElem hr, List.getElem?_eq_getElem hc, Option.getD_some]
+        grind
+      · have hd : cw.drop k0 = [] := List.drop_eq_nil_of_le (by omega)
+        have hd1 : cw.drop (k0 + 1) = [] := List.drop_eq_nil_of_le (by omega)
+        rw [hd1, dot3_nil_w] at ih
+        rw [hd, dot3_nil_w]
+        simp only [idxDot2, ih, List.getD_eq_getElem?_getD,
+          List.getElem?_eq_none (by omega : cw.length ≤ k0), Option.getD_none]
+        grind
+    · have hd : rw'.drop k0 = [] := List.drop_eq_nil_of_le (by omega)
+      have hd1 : rw'.drop (k0 + 1) = [] := List.drop_eq_nil_of_le (by omega)
+      rw [hd1] at ih
+      simp only [List.zipWith_nil_left, dot3_nil_a] at ih
+      rw [hd]
+      simp only [List.zipWith_nil_left, dot3_nil_a, idxDot2, ih, List.getD_eq_getElem?_getD,
+        List.getElem?_eq_none (by omega : rw'.length ≤ k0), Option.getD_none]
+      grind
+
+/-- **C37.I6** Int8 kernel = dequantize-then-multiply applied to the de-quantised LHS, and = the
+per-block model `int8Blocks` (both dot-product flavours): each integer product scaled by the
+`col_scale·row_scale` that the kernel's lane/tail index arithmetic selects. -/
+theorem c37_int8_kernel_eq_reference (epv j nb : Nat) (hepv : IsEpv epv) (u : Bool)
+    (cs rs l q : List R) (hl : l.length = q.length) (hc : cs.length = rs.length)
+    (hlen : l.length ≤ nb * (16 * 2 ^ j)) :
+    int8KernelDot epv (16 * 2 ^ j) nb cs rs l q = refDot (16 * 2 ^ j) cs (scaleLhs (16 * 2 ^ j) rs l) q ∧
+    int8KernelDot epv (16 * 2 ^ j) nb cs rs l q = int8Blocks u (16 * 2 ^ j) cs rs l q := by
+  have hbs : 0 < 16 * 2 ^ j := Nat.mul_pos (by decide) (Nat.pow_pos (by decide))
+  have key : int8KernelDot epv (16 * 2 ^ j) nb cs rs l q =
+      refDot (16 * 2 ^ j) cs (scaleLhs (16 * 2 ^ j) rs l) q := by
+    unfold int8KernelDot refDot scaleLhs
+    have h := idxDot2_getD (expandScales (16 * 2 ^ j) cs) (expandScales (16 * 2 ^ j) rs) 0 l q
+    rw [List.drop_zero, List.drop_zero] at h
+    rw [← h]
+    apply idxDot2_congr
+    intro k _ hk
+    rw [c37_scale_index_int8 epv j nb k hepv (by omega), expandScales_getD _ hbs,
+      expandScales_getD _ hbs]
+    exact ⟨rfl, rfl⟩
+  exact ⟨key, by rw [key, c37_int8_mode_eq_dequantize u _ cs rs l q hl hc]⟩
+
+end Compose
+
+/-- Non-vacuity over `Int`: generic width (32), block size 16, 3 blocks (one vblock + one tail
+block), distinct scales: the kernel sums equal the reference / the per-block Int8 model. -/
+def exA : List Int := (List.range 48).map fun k => Int.ofNat k - 20
+def exQ : List Int := (List.range 48).map fun k => Int.ofNat (k * 7 % 16)
+
+example : RtenVerif.BlockQuant.floatKernelDot 32 16 3 [1, 2, 4] exA exQ =
+      RtenVerif.BlockQuant.refDot 16 [1, 2, 4] exA exQ ∧
+    RtenVerif.BlockQuant.int8KernelDot 32 16 3 [1, 2, 4] [3, 1, 2] exA exQ =
+      RtenVerif.BlockQuant.int8Blocks true 16 [1, 2, 4] [3, 1, 2] exA exQ := by decide +kernel
 
 end RtenVerif.BlockQuantIndex
